@@ -49,6 +49,7 @@ FEATURE_TAGS = [
     ("leading-zero-int", r"(?<![\w.])0\d+"),
     ("multiline-string", r"\"[^\"\n]*\n"),
     ("vararg-default", r"vararg \w+[^,)]*:="),
+    ("irrefutable-arm-not-last", r"(?m)^( +)(?:_|[a-z_]\w*) =>[^\n]*\n(?:\1 [^\n]*\n)*\1\S[^\n]* =>"),
     ("if-in-operand", r"[-+*/^<>=] *\(if |\(if [^\n]*\) *(<<|>>|_and_|_or_|_xor_|[-+*/^])"),
 ]
 
